@@ -1,11 +1,13 @@
 import AkVerif.Model.Proto
 import AkVerif.Model.ColorsConf
+import AkVerif.Model.ColorsConfGlobal
 import AkVerif.Gen.C14
 /-!
 Line protocol of C14 (stateful; `reset` starts a new case).
 
 ```
-new <0|1> <cfg>                         ColorsConfig(cfg, no_color=…)                 -> ok | err E
+new <0|1> <cfg>                         ColorsConfig(cfg, no_color=…): configuration #n, becomes the target -> ok | err E
+use <i>                                 configuration #i is the target of add/reg/pal/get/ids/rep/glob -> ok
 add <cfg>                               conf.add_new_items(flat dict, "later")        -> ok | err E
 reg <name> <cfg>                        conf.register_color_conf_component(cfg, name) -> ok | err E
 cls <k>[@<name>] <parents|none> <accessors|none> <cfg|nodefaults>   define palette class k -> ok
@@ -24,7 +26,8 @@ configuration is in a half-updated state that is not modelled: every later line 
 open Ak Ak.Proto ColorsConf
 
 structure DrvState where
-  world : Option GWorld
+  world : MWorld
+  cur : Nat            -- the configuration the lines without an index act on
   dead : Bool
   classes : List ClassDef
 
@@ -120,15 +123,15 @@ where go : CfgItems → Bool
   | .cons _ (.str _) rest => go rest
   | .cons _ _ _ => false
 
-def doOp (st : DrvState) (w : GWorld) (op : GOp) : DrvState × String :=
-  match stepG st.classes w op with
-  | .ok (w', none) => ({ st with world := some w' }, "ok")
-  | .ok (w', some s) => ({ st with world := some w' }, showSnap s)
+def doOp (st : DrvState) (w : MWorld) (op : MOp) : DrvState × String :=
+  match stepM st.classes w op with
+  | .ok (w', none) => ({ st with world := w' }, "ok")
+  | .ok (w', some s) => ({ st with world := w' }, showSnap s)
   | .error e => ({ st with dead := true }, "err " ++ e.name)
 
 def handle (st : DrvState) (line : String) : DrvState × String :=
   match splitWs line with
-  | ["reset"] => (⟨none, false, []⟩, "ok")
+  | ["reset"] => (⟨⟨[], [], none, []⟩, 0, false, []⟩, "ok")
   | "cls" :: k :: ps :: accs :: cfg =>
     -- `k` or `k@<name>`: the Python name of the class (no meaning in the model: a class is its index)
     match (k.splitOn "@").head?.bind (·.toNat?), parseParents ps, parseAccessors accs with
@@ -145,56 +148,61 @@ def handle (st : DrvState) (line : String) : DrvState × String :=
     | _, _, _ => (st, "bad-op")
   | cmd :: args =>
     if st.dead then (st, "dead") else
+    let w := st.world
     match cmd, args with
     | "new", nc :: cfg =>
       match bool01 nc, cfgOfTokens cfg with
       | some nc, some cfg =>
-        match newConf nc cfg with
-        | .ok c => ({ st with world := some ⟨⟨c, []⟩, false, []⟩ }, "ok")
-        | .error e => ({ st with dead := true }, "err " ++ e.name)
+        -- one more configuration; it becomes the target of the following lines
+        doOp { st with cur := w.confs.length } w (.new nc cfg)
       | _, _ => (st, "bad-op")
+    | "use", [i] =>
+      match i.toNat? with
+      | some i => if i < w.confs.length then ({ st with cur := i }, "ok") else (st, "bad-op")
+      | none => (st, "bad-op")
     | "add", cfg =>
-      match st.world, cfgOfTokens cfg with
-      | some w, some cfg => if isFlat cfg then doOp st w (.op (.add (flatten cfg))) else (st, "bad-op")
+      match w.confs[st.cur]?, cfgOfTokens cfg with
+      | some _, some cfg => if isFlat cfg then doOp st w (.on st.cur (.add (flatten cfg))) else (st, "bad-op")
       | _, _ => (st, "bad-op")
     | "reg", name :: cfg =>
-      match st.world, cpsOf name, cfgOfTokens cfg with
-      | some w, some name, some cfg => doOp st w (.op (.reg name cfg))
+      match w.confs[st.cur]?, cpsOf name, cfgOfTokens cfg with
+      | some _, some name, some cfg => doOp st w (.on st.cur (.reg name cfg))
       | _, _, _ => (st, "bad-op")
     | "pal", [k, nc] =>
-      match st.world, k.toNat?, bool01 nc with
-      | some w, some k, some nc => if k < st.classes.length then doOp st w (.op (.pal k nc)) else (st, "bad-op")
+      match w.confs[st.cur]?, k.toNat?, bool01 nc with
+      | some _, some k, some nc =>
+        if k < st.classes.length then doOp st w (.on st.cur (.pal k nc)) else (st, "bad-op")
       | _, _, _ => (st, "bad-op")
     | "get", [id] =>
-      match st.world, cpsOf id with
-      | some w, some id => (st, "ok " ++ showCps (getColor w.w.conf id))
+      match w.confs[st.cur]?, cpsOf id with
+      | some c, some id => (st, "ok " ++ showCps (getColor c id))
       | _, _ => (st, "bad-op")
     | "ids", [] =>
-      match st.world with
-      | some w => (st, showIds w.w.conf.map)
+      match w.confs[st.cur]? with
+      | some c => (st, showIds c.map)
       | none => (st, "bad-op")
     | "rep", [] =>
-      match st.world with
-      | some w => (st, showReport w.w.conf.map)
+      match w.confs[st.cur]? with
+      | some c => (st, showReport c.map)
       | none => (st, "bad-op")
     | "glob", [] =>
-      match st.world with
-      | some w => doOp st w .setGlobal
+      match w.confs[st.cur]? with
+      | some _ => doOp st w (.setGlobal st.cur)
       | none => (st, "bad-op")
     | "syn", [k] =>
-      match st.world, k.toNat? with
-      | some w, some k =>
-        if k < st.classes.length then
-          -- before `glob` the palette shows another configuration's colours: nothing to compare
-          if w.isGlobal then doOp st w (.syn k) else ((doOp st w (.syn k)).1, "ok pre-global")
+      match k.toNat? with
+      | some k =>
+        if k < st.classes.length ∧ w.confs ≠ [] then
+          -- before the first `glob` the palette shows another configuration's colours: nothing to compare
+          if w.glob.isSome then doOp st w (.syn k) else ((doOp st w (.syn k)).1, "ok pre-global")
         else (st, "bad-op")
-      | _, _ => (st, "bad-op")
+      | none => (st, "bad-op")
     | "sget", [k] =>
-      match st.world, k.toNat? with
-      | some w, some k =>
-        if (cacheGet w.synced k).isSome ∧ w.isGlobal then doOp st w (.sget k) else (st, "bad-op")
-      | _, _ => (st, "bad-op")
+      match k.toNat? with
+      | some k =>
+        if (cacheGet w.synced k).isSome ∧ w.glob.isSome then doOp st w (.sget k) else (st, "bad-op")
+      | none => (st, "bad-op")
     | _, _ => (st, "bad-op")
   | [] => (st, "bad-op")
 
-def main : IO Unit := runS handle (⟨none, false, []⟩ : DrvState)
+def main : IO Unit := runS handle (⟨⟨[], [], none, []⟩, 0, false, []⟩ : DrvState)
